@@ -113,6 +113,11 @@ def gen_steps(rng, obj, n, *, bad_rate=0.0, malformed_rate=0.0, setter_bias=1.0,
             if name in POINT_PROPS:
                 if r < malformed_rate:
                     st["arg"] = {"kind": "malformed_point", "n": rng.choice([2, 4])}
+                elif r < malformed_rate + 0.07 and hasattr(obj, "vertices"):
+                    # "put the centroid where vertex k is now": the target is a *view* of the
+                    # shape's own vertex array (legal; it changes while the setter runs)
+                    st["arg"] = {"kind": "own_vertex", "k": rng.randrange(64)}
+                    dist += ext
                 else:
                     d = [rng.uniform(-1, 1) * rng.choice([0.0, 1.0, 3.0, 20.0])
                          for _ in range(3)]
@@ -162,6 +167,9 @@ def resolve_arg(obj, st, world=None):
     name = st["prop"]
     kind = arg["kind"]
     win = st.get("win")
+    if kind == "own_vertex":
+        v = obj.vertices
+        return v[arg["k"] % len(v)], None
     if kind in ("point", "malformed_point"):
         if kind == "malformed_point":
             return [0.5] * arg["n"], None
@@ -211,12 +219,15 @@ def resolve_arg(obj, st, world=None):
     raise KeyError(kind)
 
 
-def apply(obj, st, world, scribble=False):
+def apply(obj, st, world, scribble=False, reuse=None):
     """Run one step against the live object inside the simulated environment.
     Returns dict(outcome='ok'|'raised', exc=..., value=assigned value, cur=...).
 
     ``scribble``: hostile caller - an ndarray passed to a setter is overwritten in
-    place by the caller right after the call (the shape must have kept a copy)."""
+    place by the caller right after the call (the shape must have kept a copy).
+    ``reuse``: a dict kept by the caller for the whole run - every position passed as an
+    ndarray is written into one and the same array object (``pos[:] = target``), the way a
+    simulation loop updates a position in place and assigns it again."""
     tgt = target_of(obj) if st.get("inner") else obj
     if tgt is None:
         tgt = obj
@@ -232,7 +243,18 @@ def apply(obj, st, world, scribble=False):
             with warnings.catch_warnings():
                 warnings.simplefilter("ignore")
                 if st["op"] == "set":
-                    setattr(tgt, st["prop"], out["value"])
+                    passed = out["value"]
+                    if st["arg"].get("kind") == "own_vertex":
+                        out["value"] = np.array(passed, dtype=float, copy=True)
+                    elif reuse is not None and isinstance(passed, np.ndarray) and \
+                            passed.shape == (3,) and passed.dtype == np.float64:
+                        if "buf" not in reuse:
+                            reuse["buf"] = np.array(passed, dtype=np.float64)
+                        else:
+                            reuse["buf"][...] = passed
+                        out["value"] = np.array(passed, copy=True)
+                        passed = reuse["buf"]
+                    setattr(tgt, st["prop"], passed)
                 else:
                     getattr(tgt, st["name"])(**st.get("kwargs", {}))
         except BaseException as e:  # noqa: BLE001
@@ -241,7 +263,8 @@ def apply(obj, st, world, scribble=False):
                 raise
             out["outcome"] = "raised"
             out["exc"] = e
-    if scribble and st["op"] == "set" and isinstance(out["value"], np.ndarray):
+    if scribble and st["op"] == "set" and isinstance(out["value"], np.ndarray) and \
+            st["arg"].get("kind") != "own_vertex":
         passed = out["value"]
         out["value"] = passed.copy()
         passed += 1.2345 * (1.0 + np.abs(passed))
